@@ -205,7 +205,10 @@ func genScenario(seed uint64, nBatches, maxIns int) Scenario {
 	ids := map[string]struct{}{}
 	for b := 0; b < nBatches; b++ {
 		kind := "ins"
-		if b >= 2 && len(live) >= 4 {
+		prefix := []string{"ins", "ins", "upd", "del", "ins", "upd", "del"} // every kind occurs in every history
+		if b < len(prefix) {
+			kind = prefix[b]
+		} else if len(live) >= 4 {
 			switch x := r.Intn(20); {
 			case x < 7:
 				kind = "ins"
